@@ -190,6 +190,16 @@ class GenJob:
             miss = [n for n in expected if f"int {n}(const casadi_real** arg" not in htxt]
             R.append(Result(self.id, f"{tag}: header declares every function", PROVED if not miss else REFUTED, "TV", "", 0.0,
                             "all prototypes present" if not miss else f"missing prototypes {miss}", None if not miss else {"inputs": {}}, 1))
+        # the options in effect are the REQUESTED ones (an explicit False must override a True default and vice versa):
+        # each option has an observable footprint in what was written
+        text_c = open(path).read()
+        hp_ = os.path.splitext(path)[0] + ".h"
+        seen = {"with_header": os.path.exists(hp_), "with_mem": "casadi/mem.h" in text_c, "main": ("int main(" in text_c or "main(int argc" in text_c),
+                "mex": "mexFunction" in text_c}
+        wrong = {k: {"requested": bool(eff[k]), "observed": v} for k, v in seen.items() if k in eff and bool(eff[k]) != v}
+        R.append(Result(self.id, f"{tag}: the generated files reflect the requested options (header written iff with_header, casadi/mem.h iff with_mem, main() iff main, mexFunction iff mex)",
+                        PROVED if not wrong else REFUTED, "TV", "", 0.0, f"footprints {seen}" if not wrong else f"option(s) not honoured: {wrong}",
+                        None if not wrong else {"inputs": {"options": self.opts}, "observed": wrong}, 1))
         # compile
         cc = ["g++", "-x", "c++"] if eff.get("cpp") else ["gcc"]
         extra = [] if eff.get("include_math", True) else ["-include", "math.h"]
